@@ -72,6 +72,32 @@ struct VhCase
         return false;
     }
 
+    // Like fail(), but when the failing oracle belongs to a property that is neither the focus nor
+    // a known finding the case goes on (returns false): used where the harness' model stays
+    // consistent, so that the focus property's own oracle can still observe the consequences.
+    bool fail_soft(const char* prop, const char* check, const char* disc, const char* fmt, ...)
+      __attribute__((format(printf, 5, 6)))
+    {
+        if (ended)
+            return true;
+        char msg[600];
+        va_list ap;
+        va_start(ap, fmt);
+        vsnprintf(msg, sizeof msg, fmt, ap);
+        va_end(ap);
+        bool fatal = !vh_focus || !*vh_focus || !strcmp(vh_focus, prop);
+        char sig[200];
+        snprintf(sig, sizeof sig, "%s|%s|%s", prop, check, disc ? disc : "");
+        if (fatal || is_known(sig))
+            return fail(prop, check, disc, "%s", msg);
+        int pi = prop_index(prop);
+        if (pi >= 0)
+            rep->other_fail |= (1u << pi);
+        if (rep->trace)
+            fprintf(rep->trace, "!! (other property, case continues) %s : %s\n", sig, msg);
+        return false;
+    }
+
     // Records an oracle failure. `disc` is the canonical discriminator of the failing history
     // class (part of the signature).  Always ends the case.  Returns true.
     bool fail(const char* prop, const char* check, const char* disc, const char* fmt, ...)
